@@ -1,4 +1,9 @@
 //! axv — conformance harness binding the TLA+ specifications in /verif/spec to AxmosDB.
+mod dbdrv;
+mod eng;
+mod probe;
+mod runner;
+mod sqlgen;
 mod util;
 mod wal;
 
@@ -11,6 +16,8 @@ fn main() {
     let rest = util::Args(args[1..].to_vec());
     let code = match args[0].as_str() {
         "wal" => wal::main(&rest),
+        "probe" => probe::main(&rest),
+        "db" => dbdrv::main(&rest),
         other => {
             eprintln!("unknown driver {other}");
             2
